@@ -193,8 +193,12 @@ xds_decoder(vbi_decoder *vbi, int _class, int type,
 			month--;
 			day--;
 
+			/* The tape delay flag is part of the number: a
+			   change must be received twice like any other
+			   before it is announced. */
 			neq = (pi->month ^ month) | (pi->day ^ day)
-				| (pi->hour ^ hour) | (pi->min ^ min);
+				| (pi->hour ^ hour) | (pi->min ^ min)
+				| (pi->tape_delayed ^ !!(buffer[3] & 0x10));
 
 			pi->tape_delayed = !!(buffer[3] & 0x10);
 
